@@ -27,6 +27,11 @@ def check(repo, col, tier):
     _capacitance(repo, col)
     from . import c10
     c10.derived_after_overrides(repo, col, "R-C15-units")
+    # the discretised operator itself (shared with C01): a wrong matrix entry makes the scheme converge to another equation
+    from . import c01_solver
+    col.rule("R-C15-assembly", "implicit matrices of both back ends are the discretised cable operator", 10)
+    c01_solver._assembly_jaxley(repo, col, "R-C15-assembly")
+    c01_solver._assembly_sparse(repo, col, "R-C15-assembly")
 
 
 def _channel_factor(repo, col):
